@@ -13,6 +13,7 @@ import (
 type loggerTableResult struct {
 	path  string // the except test is given something else than the path as received
 	lines string // a non-excepted entry of the governing rule does not get exactly one line, or an excepted one gets a line
+	mask  string // an entry's line shows the client address masked although the entry has no ipmask (or the other way round)
 	other string
 	n     int
 }
@@ -80,6 +81,7 @@ func loggerTable(h H) *loggerTableResult {
 		except [2]bool
 		status int64
 		errFn  bool
+		mask   [2]bool // per entry: the entry's log has an ipmask
 	}
 	var cases []cs
 	for _, m := range [][]bool{{true}, {false}, {false, true}, {true, true}, {false, false}} {
@@ -89,15 +91,23 @@ func loggerTable(h H) *loggerTableResult {
 					if st == 200 && ef {
 						continue
 					}
-					cases = append(cases, cs{m, ex, st, ef})
+					cases = append(cases, cs{m, ex, st, ef, [2]bool{}})
 				}
 			}
 		}
+	}
+	for _, mk := range [][2]bool{{true, false}, {false, true}, {true, true}} {
+		cases = append(cases, cs{[]bool{true}, [2]bool{}, 200, false, mk})
 	}
 	for _, c := range cases {
 		c := c
 		res.n++
 		desc := fmt.Sprintf("rules matching %v, entries excepted %v, next handler reports %d, custom error function=%v", c.match, c.except, c.status, c.errFn)
+		if c.mask != [2]bool{} {
+			desc += fmt.Sprintf(", entries with an ipmask %v", c.mask)
+		}
+		custom := map[string]string{}
+		lineText := map[string]string{}
 		var shouldLogArgs []string
 		lines := map[string]int{}
 		nextCalls := 0
@@ -129,12 +139,26 @@ func loggerTable(h H) *loggerTableResult {
 			case strings.HasSuffix(callee, "httpserver.NewReplacer"):
 				return aiface{aptr{&aobj{name: "replacer", typ: types.Typ[types.Int], f: map[string]aval{}}, ""}, types.Typ[types.Int]}, true
 			case callee == "invoke:Set":
-				return atuple{}, true
-			case callee == "invoke:Replace":
-				if f, ok := args[1].(astr); ok {
-					return astr("line for " + string(f)), true
+				if k, ok := args[1].(astr); ok {
+					if v, ok := args[2].(astr); ok {
+						custom[string(k)] = string(v)
+					}
 				}
-				return astr("line"), true
+				return atuple{}, true
+			case strings.HasSuffix(callee, "httpserver.Logger).MaskIP"):
+				return astr("MASKED"), true
+			case callee == "invoke:Replace":
+				remote := "1.2.3.4"
+				if v, ok := custom["remote"]; ok {
+					remote = v
+				}
+				if f, ok := args[1].(astr); ok {
+					if f == "{remote}" {
+						return astr(remote), true
+					}
+					return astr("line for " + string(f) + " remote=" + remote), true
+				}
+				return astr("line remote=" + remote), true
 			case callee == "invoke:ServeHTTP":
 				nextCalls++
 				// a downstream handler rewrites the path in place
@@ -163,6 +187,11 @@ func loggerTable(h H) *loggerTableResult {
 					}
 				}
 				lines[name]++
+				if t, ok := args[len(args)-1].(avals); ok && len(t.cells) == 1 {
+					if tx, ok := ifaceVal(t.cells[0].f[""]).(astr); ok {
+						lineText[name] = string(tx)
+					}
+				}
 				return atuple{}, true
 			case strings.HasSuffix(callee, "ResponseRecorder).WriteHeader"), callee == "fmt.Fprintf", callee == "net/http.StatusText", callee == "callback:errorFunc":
 				return atuple{}, true
@@ -178,7 +207,7 @@ func loggerTable(h H) *loggerTableResult {
 					if c.except[ei] {
 						name += "/excepted"
 					}
-					lg := &aobj{name: name, typ: hlogT, f: map[string]aval{"IPMaskExists": abool(false), "Output": astr(name)}}
+					lg := &aobj{name: name, typ: hlogT, f: map[string]aval{"IPMaskExists": abool(c.mask[ei]), "Output": astr(name)}}
 					lg.in = func(o *aobj, path string, t types.Type) aval { return aunk{"logger field " + path} }
 					logs[lg] = name
 					en := &aobj{name: "entry", typ: entryT, f: map[string]aval{"Format": astr(name), "Log": aptr{lg, ""}}}
@@ -218,6 +247,23 @@ func loggerTable(h H) *loggerTableResult {
 		for _, p := range shouldLogArgs {
 			if p != "/received" && res.path == "" {
 				res.path = fmt.Sprintf("%s: the except test is given %q; the client sent /received (a handler below rewrote the path to /rewritten)", desc, p)
+			}
+		}
+		if c.mask != [2]bool{} {
+			for ei := 0; ei < 2; ei++ {
+				name := fmt.Sprintf("rule0/entry%d", ei)
+				tx, have := lineText[name]
+				masked := strings.HasSuffix(tx, "remote=MASKED")
+				if have && masked != c.mask[ei] && res.mask == "" {
+					if masked {
+						res.mask = fmt.Sprintf("%s: the line of entry %d shows the client address masked although that log has no ipmask (the mask of another entry leaks)", desc, ei)
+					} else {
+						res.mask = fmt.Sprintf("%s: the line of entry %d shows the client address unmasked although that log has an ipmask", desc, ei)
+					}
+				}
+				if !have && res.mask == "" {
+					res.mask = fmt.Sprintf("%s: the text of entry %d's line was not seen", desc, ei)
+				}
 			}
 		}
 		// the governing rule: the first whose scope matches (known finding R5: later ones do not log)
